@@ -226,7 +226,7 @@ def sessStep (s : S) (f : List String) : S × List String :=
   | ["mstate"] =>
     let link := match s.link with | .pending => "pending" | .down => "down" | .live => "live" | .closed => "closed"
     let connOpen := match s.conn with | some c => !c.rd.closed | none => false
-    (s, [s!"mstate link={link} parked={s.parked} readConn={s.readConn} connOpen={connOpen} noClient={s.noClient} owed={!s.pendingAck.isEmpty} closed={s.connSemClosed} waiters={s.waiters.length} lockq={s.lockq.length}"])
+    (s, [s!"mstate link={link} parked={s.parked} readConn={s.readConn} connOpen={connOpen} noClient={s.noClient} owed={!s.pendingAck.isEmpty} closed={s.connSemClosed} waiters={s.waiters.length} lockq={s.lockq.length} stuck={s.parkedDial || s.parkedHs.isSome || s.held.isSome || !s.closers.isEmpty}"])
   | ["brk"] =>
     let s := { s with prefeed := [], dials := [], fSave := false, fDel := false, fLoad := false }
     match s.conn with
